@@ -2,12 +2,14 @@
 //!
 //! * `wire`  — the one projection pi : lopdf values -> abstract JSON (and back), shared by both
 //!             directions (spec -> impl replay, impl -> spec trace recording).
+//! * `flt`   — pure object filters for filtered loading, shared with the rayon-free build.
 //! * `rng`   — seeded generator for the recorded drivers (all randomness comes from VERIF_SEED).
 //! * `io`    — ndjson helpers.
 //! * `guard` — run code under test so that a panic is *data* (reported), not a harness failure.
 //! * `sup`   — supervisor: run cases in child worker processes so that aborts, stack overflows and
 //!             hangs are data too.
 
+pub mod flt;
 pub mod gen;
 pub mod guard;
 pub mod io;
